@@ -303,19 +303,19 @@ for _fn, _params, _space in (
          lambda E: E.old.space_start * R("1.2")),
         ("field_optimization_wp_space_fr", dict(p_space=Real, space_start=Real, rotate_step=Real, prop_bound=OpaqueOf("shape"), ng_zones=OpaqueOf("zones"), rotate_start=Real, rotate_stop=Real),
          lambda E: E.old.p_space * E.old.space_start)):
-    contract(f"{RW}:{_fn}", _params, requires=_sweep_requires(),
+    contract(f"{RW}:{_fn}", _params, requires=_sweep_requires(), name=f"{RW}:{_fn}#body",
              loops={0: LoopSpec(invariants=[("rotation-is-start-plus-k-steps", lambda E: And(E.rt == _R(E, E._k0), E._k0 <= KTOT, E.x_s == E.pre.space_start, E.y_s == E.pre.space_start)),
                                             ("densest-so-far", _sweep_inv)],
                                 decreases=lambda E: KTOT - E._k0,
                                 shapes={"max_hole": ListOf(Pt), "hole": ListOf(Pt), "max_l": Int, "max_rt": Real, "rt": Real})},
              ensures=[("returns-the-densest-tried-rotation", (lambda E, _space=_space: _densest(E, _space)))],
              raises={"ValueError": lambda E: False},
-             returns=FixedList([ListOf(Pt), OpaqueOf("str")]), options={"timeout_ms": 60000})
+             returns=FixedList([ListOf(Pt), OpaqueOf("str")]), options={"timeout_ms": 60000}).applies = lambda env: False
 
 contract(f"{RW}:sum_sq_dist", dict(p1=FixedList([Real, Real]), p2=FixedList([Real, Real])),
          ensures=[("squared-distance", lambda E: E.result == (E.p1[0] - E.p2[0]) * (E.p1[0] - E.p2[0]) + (E.p1[1] - E.p2[1]) * (E.p1[1] - E.p2[1]))], returns=Real)
 contract(f"{RW}:pts_dist", dict(p1=FixedList([Real, Real]), p2=FixedList([Real, Real])),
          ensures=[("euclidean-distance", lambda E: And(E.result >= 0, E.result * E.result == (E.p1[0] - E.p2[0]) * (E.p1[0] - E.p2[0]) + (E.p1[1] - E.p2[1]) * (E.p1[1] - E.p2[1])))], returns=Real)
 
-FUNCTIONS = [f"{RW}:field_optimization_fr", f"{RW}:field_optimization_wp_space_fr", f"{RW}:sum_sq_dist", f"{RW}:pts_dist"]
+FUNCTIONS = [f"{RW}:field_optimization_fr#body", f"{RW}:field_optimization_wp_space_fr#body", f"{RW}:sum_sq_dist", f"{RW}:pts_dist"]
 LEMMAS = []
